@@ -205,13 +205,16 @@ wantsLoop:
 	for want := range f.Wants {
 		commitList := list.New()
 		tableList := list.New()
+		// breadth-first walk that visits each commit once and stops at common
+		// commits: records the shortest distance of every commit from this want
+		depths := map[string]int{}
+		commits := map[string]*objects.Commit{}
+		sums := [][]byte{}
 		q := list.New()
 		q.PushBack(commitDepth{[]byte(want), 0})
-		sums := [][]byte{}
 		for q.Len() > 0 {
 			cd := q.Remove(q.Front()).(commitDepth)
-			sums = append(sums, cd.sum)
-			if _, ok := alreadySeenCommits[string(cd.sum)]; ok {
+			if _, ok := depths[string(cd.sum)]; ok {
 				continue
 			}
 			if _, ok := f.commons[string(cd.sum)]; ok {
@@ -221,9 +224,11 @@ wantsLoop:
 			if err != nil {
 				return err
 			}
-			commitList.PushFront(c)
+			depths[string(cd.sum)] = cd.depth
+			commits[string(cd.sum)] = c
+			sums = append(sums, cd.sum)
 			if f.depth == 0 || cd.depth < f.depth {
-				tableList.PushFront(c.Table)
+				tableList.PushBack(c.Table)
 			}
 			if cont != nil && cont(want, c) {
 				continue wantsLoop
@@ -232,7 +237,42 @@ wantsLoop:
 				q.PushBack(commitDepth{p, cd.depth + 1})
 			}
 		}
-		// queue is exhausted mean everything is reachable from commons
+		// list the commits not already listed for another want, parents first
+		// (depth-first post-order)
+		type frame struct {
+			c    *objects.Commit
+			next int
+		}
+		listed := map[string]struct{}{}
+		stack := []frame{}
+		push := func(sum []byte) {
+			k := string(sum)
+			if _, ok := depths[k]; !ok {
+				return
+			}
+			if _, ok := alreadySeenCommits[k]; ok {
+				return
+			}
+			if _, ok := listed[k]; ok {
+				return
+			}
+			listed[k] = struct{}{}
+			stack = append(stack, frame{commits[k], 0})
+		}
+		for _, sum := range sums {
+			push(sum)
+			for len(stack) > 0 {
+				fr := &stack[len(stack)-1]
+				if fr.next < len(fr.c.Parents) {
+					p := fr.c.Parents[fr.next]
+					fr.next++
+					push(p)
+					continue
+				}
+				commitList.PushBack(fr.c)
+				stack = stack[:len(stack)-1]
+			}
+		}
 		f.commitLists = append(f.commitLists, commitList)
 		f.tableSumLists = append(f.tableSumLists, tableList)
 		for _, sum := range sums {
